@@ -42,7 +42,6 @@ func c01Mutators(contents []string) []harness.Req {
 	return out
 }
 
-
 // probe returns a fingerprint of what the server reports for the whole tree, modulo tags and dates.
 func c01Probe(h *webdav.Handler, t harness.Tree) string {
 	var sb strings.Builder
